@@ -218,6 +218,24 @@ func runCodec(t *testing.T, prop string, c01, c02 bool) *ev.Rec {
 		classOfTree(c, ctx.Name, m.Nodes)
 		codecCase(c, ctx, m, c.R.IntN(3), c01, c02, "")
 	})
+	// chains of grouped AVPs nested 7..120 deep (the decoder accepts up to
+	// MaxGroupedAVPDepth = 128 levels)
+	rec.Suite("deep-chains", rec.N(300, 20000), func(c *ev.Case) {
+		ctx := genCtx(t)
+		depth := 7 + c.R.IntN(114)
+		c.Class("deep-chain/depth=%d", depth/10*10)
+		leaf := &refcodec.Node{Code: 9009, Flags: 0x40, Kind: refcodec.Unsigned32, U: uint64(c.R.Uint32())}
+		cur := []*refcodec.Node{leaf}
+		for d := 0; d < depth; d++ {
+			g := &refcodec.Node{Code: uint32(9018 + c.R.IntN(2)), Flags: 0x40, Kind: refcodec.Grouped, Kids: cur}
+			cur = []*refcodec.Node{g}
+			if c.R.IntN(4) == 0 {
+				cur = append(cur, &refcodec.Node{Code: 9001, Flags: 0x40, Kind: refcodec.OctetString, B: []byte{byte(d)}})
+			}
+		}
+		m := &gen.Msg{H: refcodec.Header{Version: 1, Flags: 0x80, Code: 8388000, HopByHop: 1, EndToEnd: 2}, Nodes: cur}
+		codecCase(c, ctx, m, c.I, c01, c02, "")
+	})
 	// known-risk Address classes, wire direction only (the API cannot express them)
 	rec.Suite("risk-address", rec.N(2000, 50000), func(c *ev.Case) {
 		ctx := ctxs[c.I%len(ctxs)]
